@@ -6,7 +6,7 @@
   The cache `c` is ARBITRARY in every lookup theorem (in particular every state reachable by inserts, invalidation,
   reload marks, GC rounds, epoch-not-match handling), PD is an arbitrary list of regions unless stated otherwise.
 -/
-import ClientGoVerif.Proofs.RegionReach
+import ClientGoVerif.Proofs.RegionConv
 namespace CGV.Props.C09
 open CGV CGV.Region
 
@@ -326,5 +326,59 @@ theorem insert_evicts_exactly (c c' : Cache) (n : Entry) (hwf : n.r.wf)
 example : (⟨⟨2, [103], some [116], 2, 0⟩, true, false, 1, [1]⟩ : Entry).r.wf ∧
     (insertRegionToCache Cache.empty ⟨⟨2, [103], some [116], 2, 0⟩, true, false, 1, [1]⟩).2 = true := by
   refine ⟨by simp [Region.wf]; decide, rfl⟩
+
+/-! ## convergence once the topology is quiet
+
+  `pd` is the fixed layout that PD and the stores agree on (`QuietPD`: total, well-formed, disjoint, distinct ids).
+  The cache is any sorted index that is not ahead of it (`ConvInv` = `Sorted` + `NotAhead`: entries are well-formed
+  descriptions whose versions/epochs do not exceed those of the current regions they touch — which holds for whatever
+  was loaded from earlier PD states as long as versions grow with every split and merge; this is an assumption about
+  the history, not proved here, and exercised by the `conv` op of the differential).  A request `attempt` is: LocateKey,
+  send, and — unless the location is exactly the store's current region — a region error handled by one of the three
+  feedback paths (InvalidateCachedRegion, needReloadOnAccess as set by OnSendFail(scheduleReload), OnRegionEpochNotMatch
+  with the store's current regions overlapping the stale one). -/
+
+/-- converges_when_quiet, single key: whatever the feedback path, at most ONE attempt is rejected; the attempt after it
+    is accepted, and from then on the key is `Settled`: found in the cache as PD's current region -/
+theorem converges_when_quiet (c : Cache) (pd : PD) (k : Bytes) (fb : Feedback) (n : Nat)
+    (hq : QuietPD pd) (hi : ConvInv c pd) :
+    ∃ c' failed, attempts (n + 2) c pd k fb 0 = (c', some failed) ∧ failed ≤ 1 ∧ Settled c' pd k ∧ ConvInv c' pd :=
+  attempts_bound hq hi k fb n
+
+/-- a settled key is served with PD's current region from the cache alone — the answer does not depend on what PD would
+    say (no PD round trip), the cache is not modified, and every further attempt is accepted: the situation is stable -/
+theorem settled_is_served_from_cache (c : Cache) (pd : PD) (k : Bytes) (h : Settled c pd k) :
+    ∃ p, pd.getRegion k = some p ∧ (∀ pd', locateKey c pd' k = (c, .ok p.r)) ∧ ∀ fb, attempt c pd k fb = (c, true) :=
+  settled_served h
+
+/-- being settled survives everything the quiet situation does to the cache for OTHER keys: inserting any current
+    region (what lookups, reloads and epoch-not-match handling of other keys do) keeps the key settled -/
+theorem settled_is_stable (c : Cache) (pd : PD) (k : Bytes) (hq : QuietPD pd) (hi : ConvInv c pd)
+    (h : Settled c pd k) (q : PdRegion) (hqm : q ∈ pd) :
+    Settled (insertRegionToCache c q.toEntry).1 pd k ∧ ConvInv (insertRegionToCache c q.toEntry).1 pd :=
+  ⟨insert_keeps_settled hq hi h hqm rfl rfl rfl, insert_convInv hq hi hqm rfl⟩
+
+/-- non-vacuity: a two-region layout is quiet, the empty cache and a cache holding the stale unsplit region satisfy the
+    invariant, and the stale cache really needs one rejected attempt -/
+example : QuietPD pd2 ∧ ConvInv Cache.empty pd2 ∧
+    (attempts 3 (insertRegionToCache Cache.empty ⟨⟨1, [], none, 0, 0⟩, true, false, 1, [1, 2, 3]⟩).1 pd2 [104]
+      Feedback.invalidate 0).2 = some 1 := by
+  refine ⟨⟨?_, ?_, ?_, ?_⟩, ⟨by simp [Cache.empty, Sorted], ?_⟩, rfl⟩
+  · intro k
+    rcases le_total [103] k with h | h
+    · refine ⟨⟨⟨2, [103], none, 1, 0⟩, 1, [1, 2, 3]⟩, ?_⟩
+      have h1 : Bytes.lt k [103] = false := by
+        cases hl : Bytes.lt k [103] with
+        | false => rfl
+        | true => rw [le_iff_not_lt, hl] at h; cases h
+      simp [PD.getRegion, pd2, List.find?, Region.contains, Region.endKey, h, h1, nil_le]
+    · refine ⟨⟨⟨1, [], some [103], 1, 0⟩, 1, [1, 2, 3]⟩, ?_⟩
+      simp [PD.getRegion, pd2, List.find?, Region.contains, Region.endKey, h, nil_le]
+  · intro p hp; simp [pd2] at hp; rcases hp with rfl | rfl <;> simp [Region.wf] <;> decide
+  · intro p hp q hq; simp [pd2] at hp hq
+    rcases hp with rfl | rfl <;> rcases hq with rfl | rfl <;> simp <;> decide
+  · intro p hp q hq; simp [pd2] at hp hq
+    rcases hp with rfl | rfl <;> rcases hq with rfl | rfl <;> simp
+  · exact ⟨(by intro e he; cases he), (by intro e he; cases he), (by intro e he; cases he), (by intro x hx; cases hx)⟩
 
 end CGV.Props.C09
